@@ -104,6 +104,7 @@ pub struct Step {
 }
 
 pub fn history(n_aircraft: usize, len: std::ops::Range<usize>, max_dt: i64) -> BoxedStrategy<Vec<Step>> {
-    let step = (0..n_aircraft, prop_oneof![3 => Just(0i64), 1 => 0..=max_dt]).prop_flat_map(|(ac, dt)| (Just(ac), prop_oneof![15 => frame_any(gen::POOL[ac]), 1 => other_df_frame(gen::POOL[ac])], Just(dt))).prop_map(|(ac, frame, dt)| Step { ac, frame, dt });
+    // mostly no time step, sometimes 0..max_dt seconds, rarely the clock steps BACK (stored stamps lie in the future)
+    let step = (0..n_aircraft, prop_oneof![30 => Just(0i64), 10 => 0..=max_dt, 1 => Just(-5i64), 1 => Just(-3600i64)]).prop_flat_map(|(ac, dt)| (Just(ac), prop_oneof![15 => frame_any(gen::POOL[ac]), 1 => other_df_frame(gen::POOL[ac])], Just(dt))).prop_map(|(ac, frame, dt)| Step { ac, frame, dt });
     proptest::collection::vec(step, len).boxed()
 }
